@@ -536,6 +536,41 @@ func runC06(c *core.Ctx) {
 				good[edgeKey{ifi.Block(), s}] = "iteration bound of the bounded-wait configuration"
 			}
 			c.Note("bounded wait: loop bound %s on channels created with untilWrite=false", cd.Y.String())
+				// the bound counts poll intervals: every trip round the loop really waits one (time.Sleep, or a receive
+			// from a timer channel alone); a select that another event can win makes the grace period shorter than documented
+			c.Instance("R1")
+			hdr := ifi.Block()
+			waits := func(x ssa.Instruction) bool {
+				if core.IsPkgFunc(x, "time", "Sleep") {
+					return true
+				}
+				if u, ok := x.(*ssa.UnOp); ok && u.Op == token.ARROW {
+					if ch, ok := u.X.Type().Underlying().(*types.Chan); ok && core.NamedIs(ch.Elem(), "time", "Time") {
+						return true
+					}
+				}
+				return false
+			}
+			var short ssa.Instruction
+			var spath []*ssa.BasicBlock
+			for _, s := range hdr.Succs {
+				t, pth := core.Search(nil, s, func(x ssa.Instruction) core.Action {
+					if waits(x) {
+						return core.Barrier
+					}
+					if x.Block() == hdr && x == hdr.Instrs[0] {
+						return core.Target
+					}
+					if e.transportClose(x) {
+						return core.Barrier
+					}
+					return core.Continue
+				}, nil)
+				if t != nil && short == nil {
+					short, spath = t, pth
+				}
+			}
+			c.Check(short == nil, "R1", "closer/grace-period-is-waited", p.InstrPos(ifi), "every poll iteration waits the poll interval", "an iteration of the bounded wait can finish without waiting the poll interval (a select another event can win, or no sleep): the grace period given to a busy sender is shorter than the documented bound and Close cuts its batch", p.PathString(spath, short)...)
 		}
 	}
 	// product search: from CAS true edge to tclose; path is fine if it passes a good edge, or (inline) an empty edge then an idle edge
@@ -630,6 +665,10 @@ func runC06(c *core.Ctx) {
 	importObligations(c, runC01, "R7", func(o *core.Obligation) bool {
 		return o.Rule == "R3" && (strings.Contains(o.Key, "transport-as-writer") || strings.Contains(o.Key, "enqueuer/"))
 	})
+	// the sender Close waits for does run, and what it flushed has left the wrapper's buffer when it reports idle
+	c.Rule("R8", "the sender Close waits for is started on every path; the wrappers' Flush drains their one write sink (shared with C18-R10, C17-R1/R5)", 2)
+	ruleExecutorsAreAsync(c, e, "R8")
+	importObligations(c, runC17, "R8", func(o *core.Obligation) bool { return o.Rule == "R1" || o.Rule == "R5" })
 }
 
 func isIntT(t types.Type) bool {
